@@ -98,7 +98,7 @@ def build(chk, only=''):
             def h(ctx):
                 log = {}
                 m = gm(ctx, log)
-                m.unwind = 80
+                m.unwind = max(80, 2 * l + 16)
                 objs = {}
                 pts = []
                 for c in pattern:
@@ -137,7 +137,7 @@ def build(chk, only=''):
                         ctx.check(set(pl.c) == {'P%d' % pattern[i]} and z3.is_true(z3.simplify(pl.coeff('P%d' % pattern[i]) == 1)), 'point-unchanged')
                 goal = z3.And([GA.eq_coeff(m, got, b, e) for b, e in want.items()] + [GA.eq_coeff(m, got, k, 0) for k in got.c if k not in want])
                 return (pc, goal)
-            lbl = 'msm/%s@len%d[points=%s,receiver=%s]' % (fn, l, ','.join(map(str, pattern)), 'fresh' if recv is None else 'entry%d' % recv)
+            lbl = 'msm/%s@len%d[points=%s,receiver=%s]' % (fn, l, ','.join(map(str, pattern)) if l <= 8 else 'distinct', 'fresh' if recv is None else 'entry%d' % recv)
             paths = sub.explore(lbl, h, mode='bv')
             for i, p in enumerate(paths):
                 if p.outcome == 'ok' and p.value:
@@ -164,9 +164,16 @@ def build(chk, only=''):
                 for pat in pats:
                     for recv in [None] + list(range(l)):
                         tasks.append(('msm', t_msm(fn, l, pat, recv)))
+        # long lists (chunked or batched processing would only show there): distinct point objects, fresh receiver and the receiver as the last entry
+        longs = (17, 33, 65, 129) if chk.thorough else (33, 65)
+        for fn in ('MultiScalarMult', 'MultiScalarMultVartime'):
+            for l in longs:
+                tasks.append(('msm', t_msm(fn, l, tuple(range(l)), None)))
+            tasks.append(('msm', t_msm(fn, longs[0], tuple(range(longs[0])), longs[0] - 1)))
+        chk.bounds.append('MultiScalarMult / MultiScalarMultVartime, long lists: lengths %s with pairwise distinct point objects, all scalars in [0,n)' % (longs,))
         chk.bounds.append('MultiScalarMult / MultiScalarMultVartime: list lengths 0..%d, all scalars in [0,n), every equality pattern among the point objects (lengths <= 3), '
                           'receiver fresh or any list entry; points arbitrary group elements (identity, P_i = -P_j are values of the symbolic bases)' % maxl)
-        chk.outside.append('lists longer than %d' % maxl)
+        chk.outside.append('list lengths other than 0..%d and %s' % (maxl, longs))
 
     def t_mismatch(sub):
         for fn in ('MultiScalarMult', 'MultiScalarMultVartime'):
